@@ -36,6 +36,7 @@ BLOCKING = ('pause', 'spin_wait_while_eq', 'spin_wait_until_eq', 'spin_wait_whil
 
 def run(facts, rep):
     d1_transitions(facts, rep)
+    d1_rtm_write_flag(facts, rep)
     d2_guards(facts, rep)
     d3_try(facts, rep)
     d4_upgrade(facts, rep)
@@ -237,6 +238,68 @@ def d1_transitions(facts, rep):
             cs = calls_named(fn, names)
             rep.ob('D1', 'K4', fn, 'the non-speculative path calls the real %s' % '/'.join(names), len(cs) >= len(names), 'missing call')
     rep.floor('D1', 45, 'ownership transitions')
+
+
+def d1_rtm_write_flag(facts, rep):
+    """speculative_spin_rw_mutex: speculative READERS look only at `write_flag` (they put it into their read set), never at the
+    state word of the underlying spin_rw_mutex.  A real (non-speculative) writer therefore has to keep the flag raised for
+    exactly the time it holds the underlying write lock:
+      (a) the flag is raised only while the underlying write lock is held - after lock(), after upgrade() has returned (its slow
+          path releases the read lock and waits in lock(); a writer that runs meanwhile clears the flag when it leaves), or on
+          the success edge of try_lock();
+      (b) every acquisition of the underlying write lock is followed on all paths by raising the flag;
+      (c) the flag is lowered only in front of giving the write lock up (unlock()/downgrade()) and nothing touches it after that.
+    Otherwise a transactional reader is admitted while a real writer is inside."""
+    impl = [fn for fn in facts.fns.values() if fn.q.startswith(R1 + 'rtm_rw_mutex_impl::')]
+    if not impl:
+        raise AnalysisBroken('rtm_rw_mutex_impl: no functions extracted')
+    BASE = 'spin_rw_mutex::'
+    n_raise = n_lower = n_acq = 0
+    for fn in sorted(impl, key=lambda f: f.q):
+        base = [(pos, s, (d or {}).get('q', '').split(BASE)[-1]) for pos, s, node, d in calls(fn) if BASE in (d or {}).get('q', '')]
+        acq_calls = set(pos for pos, s, nm in base if nm in ('lock', 'upgrade'))
+        try_nodes = set(s for pos, s, nm in base if nm == 'try_lock')
+        rel_calls = set(pos for pos, s, nm in base if nm in ('unlock', 'downgrade'))
+        defs = Defs(fn)
+        try_edges = edges_where(fn, lambda a, truth: truth and fn.strip(resolve_cond_source(fn, defs, a)) in try_nodes)
+        stores = atomics_on(fn, 'write_flag', kinds=('store', 'rmw', 'cas'))
+        raises = [(pos, o) for pos, o in stores if o['kind'] == 'store' and fn.cv(o.get('val', -1)) == 1]
+        lowers = [(pos, o) for pos, o in stores if o['kind'] == 'store' and fn.cv(o.get('val', -1)) == 0]
+        for pos, o in stores:
+            if (pos, o) not in raises and (pos, o) not in lowers:
+                rep.ob('D1', 'K11', fn, 'write_flag is only ever stored with a literal truth value', False,
+                       'write_flag changed by %s with a computed value' % o['name'], ln=o.get('ln'))
+        is_acq = lambda p, e: p in acq_calls   # noqa: E731
+        for pos, o in raises:
+            n_raise += 1
+            ok, wit = every_path_passes(fn, 'entry', is_acq, end=pos, stop_edge=lambda b, si: (b, si) in try_edges)
+            late = [r for r in rel_calls if fn.can_reach(r, pos, stop_elem=is_acq, stop_edge=lambda b, si: (b, si) in try_edges)]
+            rep.ob('D1', 'K4', fn, 'write_flag is raised only while the underlying write lock is held', ok and not late,
+                   'the flag is raised before the write lock is owned (%s): the slow path of upgrade()/lock() waits while another writer runs '
+                   'and clears the flag on leaving - the new writer then works with the flag down and transactional readers are admitted'
+                   % (wit or 'after a release'), ln=o.get('ln'), key_extra='raise')
+        for p_ in sorted(acq_calls):
+            n_acq += 1
+            ok, wit = every_path_passes(fn, p_, lambda p, e: p in set(x[0] for x in raises))
+            rep.ob('D1', 'K1', fn, 'after acquiring the underlying write lock the flag is raised on every path', ok,
+                   'a real writer runs with write_flag down: ' + wit, ln=fn.nodes[fn.blocks[p_[0]]['e'][p_[1]]].get('ln'), key_extra='acq')
+        for (b, si) in sorted(try_edges):
+            n_acq += 1
+            ok, wit = every_path_passes(fn, (fn.blocks[b]['succ'][si], -1), lambda p, e: p in set(x[0] for x in raises))
+            rep.ob('D1', 'K1', fn, 'after a successful try_lock of the underlying mutex the flag is raised on every path', ok,
+                   'a real writer runs with write_flag down: ' + wit, key_extra='tryacq')
+        for pos, o in lowers:
+            n_lower += 1
+            ok, wit = every_path_passes(fn, pos, lambda p, e: p in rel_calls)
+            rep.ob('D1', 'K1', fn, 'write_flag is lowered only in front of releasing / downgrading the underlying write lock', ok,
+                   'the flag is cleared while the write lock stays held: ' + wit, ln=o.get('ln'), key_extra='lower')
+        for r in sorted(rel_calls):
+            touched = [pos for pos, o in stores if fn.can_reach(r, pos, stop_elem=is_acq, stop_edge=lambda b, si: (b, si) in try_edges)]
+            rep.ob('D1', 'K4', fn, 'write_flag is not touched after the underlying write lock was given up', not touched,
+                   'after unlock()/downgrade() another writer may own the flag; the store at %s overwrites it' % touched,
+                   ln=fn.nodes[fn.blocks[r[0]]['e'][r[1]]].get('ln'), key_extra='after-release')
+    if n_raise < 3 or n_lower < 2 or n_acq < 3:
+        raise AnalysisBroken('rtm_rw_mutex_impl: write_flag sites found: %d raise / %d lower / %d acquisitions (expected >= 3/2/3)' % (n_raise, n_lower, n_acq))
 
 
 def mask_value(fn, defs, s):
